@@ -562,6 +562,11 @@ func c20Hidden(c *Ctx) {
 
 // ---- parse width ----
 
+func intSigned(t types.Type) bool {
+	b, ok := t.Underlying().(*types.Basic)
+	return ok && b.Info()&types.IsInteger != 0 && b.Info()&types.IsUnsigned == 0
+}
+
 func intWidth(t types.Type) int {
 	b, ok := t.Underlying().(*types.Basic)
 	if !ok {
@@ -610,9 +615,11 @@ func c20ParseWidth(c *Ctx) {
 				// parse helpers: closures whose int parameter is the bitSize of a ParseUint/ParseInt call
 				helpers := map[types.Object]int{} // closure variable -> parameter index
 				type site struct {
-					call *ast.CallExpr
-					bits int64
+					call   *ast.CallExpr
+					bits   int64
+					signed bool // strconv.ParseInt (true) or ParseUint (false)
 				}
+				helperSigned := map[types.Object]bool{}
 				var sites []site
 				ast.Inspect(fd.Body, func(nd ast.Node) bool {
 					call, ok := nd.(*ast.CallExpr)
@@ -625,7 +632,7 @@ func c20ParseWidth(c *Ctx) {
 					}
 					if tv := info.Types[call.Args[2]]; tv.Value != nil {
 						b, _ := constant.Int64Val(tv.Value)
-						sites = append(sites, site{call, b})
+						sites = append(sites, site{call, b, f.Name() == "ParseInt"})
 						return true
 					}
 					// bitSize is a parameter of an enclosing function literal bound to a local
@@ -651,8 +658,10 @@ func c20ParseWidth(c *Ctx) {
 								if lid, ok := as.Lhs[0].(*ast.Ident); ok {
 									if o := info.Defs[lid]; o != nil {
 										helpers[o] = idx
+										helperSigned[o] = f.Name() == "ParseInt"
 									} else if o := info.Uses[lid]; o != nil {
 										helpers[o] = idx
+										helperSigned[o] = f.Name() == "ParseInt"
 									}
 								}
 							}
@@ -676,7 +685,7 @@ func c20ParseWidth(c *Ctx) {
 					}
 					if tv := info.Types[call.Args[idx]]; tv.Value != nil {
 						b, _ := constant.Int64Val(tv.Value)
-						sites = append(sites, site{call, b})
+						sites = append(sites, site{call, b, helperSigned[info.Uses[id]]})
 					}
 					return true
 				})
@@ -693,6 +702,9 @@ func c20ParseWidth(c *Ctx) {
 						if int64(w.bits) != s.bits {
 							bad = append(bad, fmt.Sprintf("%s is %d bits", w.what, w.bits))
 						}
+						if w.signed != s.signed {
+							bad = append(bad, fmt.Sprintf("%s is %s but the text is parsed as %s (negative values the formatter prints are refused, or out-of-range values wrap)", w.what, ifElse(w.signed, "signed", "unsigned"), ifElse(s.signed, "signed", "unsigned")))
+						}
 					}
 					inst = fmt.Sprintf("%s:%s", fname, strings.Join(destNames(widths), "+"))
 					c.Check(len(bad) == 0, "parse-width", inst, c.P.Pos(s.call.Pos()), ifElse(len(bad) == 0, fmt.Sprintf("parsed with bitSize %d into %s", s.bits, strings.Join(destNames(widths), ", ")), fmt.Sprintf("parsed with bitSize %d but %s: values the formatter prints are refused, or accepted values are truncated", s.bits, strings.Join(bad, "; "))))
@@ -704,8 +716,9 @@ func c20ParseWidth(c *Ctx) {
 }
 
 type destW struct {
-	what string
-	bits int
+	what   string
+	bits   int
+	signed bool
 }
 
 func destNames(ws []destW) []string {
@@ -734,7 +747,7 @@ func destWidths(info *types.Info, parents map[ast.Node]ast.Node, fd *ast.FuncDec
 		case *ast.CallExpr:
 			if tv, ok := info.Types[x.Fun]; ok && tv.IsType() {
 				if w := intWidth(tv.Type); w > 0 {
-					out = append(out, destW{"conversion to " + typeName(tv.Type), w})
+					out = append(out, destW{"conversion to " + typeName(tv.Type), w, intSigned(tv.Type)})
 				}
 				return
 			}
@@ -743,7 +756,7 @@ func destWidths(info *types.Info, parents map[ast.Node]ast.Node, fd *ast.FuncDec
 				for i, a := range x.Args {
 					if a == e && i < sig.Params().Len() {
 						if w := intWidth(sig.Params().At(i).Type()); w > 0 {
-							out = append(out, destW{"parameter " + sig.Params().At(i).Name() + " of " + f.Name(), w})
+							out = append(out, destW{"parameter " + sig.Params().At(i).Name() + " of " + f.Name(), w, intSigned(sig.Params().At(i).Type())})
 						}
 					}
 				}
@@ -753,7 +766,7 @@ func destWidths(info *types.Info, parents map[ast.Node]ast.Node, fd *ast.FuncDec
 				if id, ok := x.Key.(*ast.Ident); ok {
 					if f, _ := info.Uses[id].(*types.Var); f != nil && f.IsField() {
 						if w := intWidth(f.Type()); w > 0 {
-							out = append(out, destW{"field " + f.Name(), w})
+							out = append(out, destW{"field " + f.Name(), w, intSigned(f.Type())})
 						}
 					}
 				}
@@ -770,7 +783,7 @@ func destWidths(info *types.Info, parents map[ast.Node]ast.Node, fd *ast.FuncDec
 				case *ast.SelectorExpr:
 					if f, _ := info.Uses[l.Sel].(*types.Var); f != nil && f.IsField() {
 						if w := intWidth(f.Type()); w > 0 {
-							out = append(out, destW{"field " + f.Name(), w})
+							out = append(out, destW{"field " + f.Name(), w, intSigned(f.Type())})
 						}
 					}
 				case *ast.Ident:
